@@ -440,6 +440,40 @@ func (f *frame) doAppend(i *ssa.Call, st *State, pc string) {
 	}
 	g.writeHeap(st, h, tgt.S, newArr)
 	f.vals[i] = g.s.def(i.Name(), T{"(slc " + tgt.S + " (off " + old.S + ") (+ (len_ " + old.S + ") (len_ " + add.S + ")) false)", "Slc"})
+	if f.top && g.spec != nil && n == 1 {
+		for k, as := range g.spec.OnAppend {
+			ty, _ := g.resolveType(as.Type)
+			if ty == nil || !types.Identical(ty, et) {
+				continue
+			}
+			elem := g.s.def("ap.elem", T{fmt.Sprintf("(select %s (+ (off %s) 0))", addArr, add.S), es})
+			vars := map[string]CV{}
+			for kk, v := range g.paramVals {
+				vars[kk] = v
+			}
+			for kk, v := range g.ghostVals {
+				vars[kk] = v
+			}
+			vars["elem"] = CV{elem, et}
+			env := &Env{g: g, st: st, old: g.entry, vars: vars, cells: f.cells, pc: pc, hyp: false, frame: f}
+			if as.Use != nil {
+				henv := *env
+				henv.hyp = true
+				g.useAxiom(&henv, as.Use)
+				continue
+			}
+			goal := env.tr(as.Clause.E, true)
+			env.want(goal, "Bool", as.Clause.E)
+			ord := f.npanic["onappend"]
+			f.npanic["onappend"] = ord + 1
+			lbl := as.Clause.Label
+			if lbl == "" {
+				lbl = fmt.Sprint(k)
+			}
+			f.oblig("assert", fmt.Sprintf("%s#onappend.%s.%d", funcKey(f.fn), lbl, ord), pc, goal.S, "appended value: "+as.Clause.Text, i.Pos(), as.Clause.Props)
+			f.passed = append(f.passed, goal.S)
+		}
+	}
 }
 
 // ---------- inlining ----------
